@@ -197,8 +197,32 @@ def _pool_job(i):
     return i, (ob.result, ob.backend, ob.ms, ob.reason, extra)
 
 
+CURRENT = None
+
+
 class Check:
     """One run of one property's check."""
+
+    def abort_missing(self, qualname):
+        """A function under contract is gone from the source: every ledger clause about it is undischarged (a violation
+        naming that clause); the rest of the run was cut short, so clauses of other functions that were not reached
+        are not reported as checker errors."""
+        self.aborted_on = qualname
+        ledger = self.load_ledger() or {"clauses": {}}
+        hit = 0
+        for k in ledger["clauses"]:
+            func, clause = k.split(" :: ", 1)
+            if func == qualname or func.startswith(qualname + ".") or qualname.startswith(func + "."):
+                ob = Ob(func, clause, "function-missing", [], z3.BoolVal(False),
+                        {"note": f"{qualname} is no longer defined in the current source (removed or renamed): "
+                                 "its contract cannot be discharged"})
+                ob.result, ob.backend = "sat", "none (structural)"
+                self.obs.append(ob)
+                hit += 1
+        if not hit:
+            self.errors.append(f"function {qualname} is not defined in the current source and no ledger clause names it")
+        self.resolve_failures(None)
+        return self.finish()
 
     def __init__(self, prop, tier="quick", seed=0):
         self.prop = prop
@@ -217,6 +241,9 @@ class Check:
         self.notes: list[str] = []
         self.vacuity = {"canaries": 0, "covers": 0}
         self.extra_coverage: dict = {}
+        self.aborted_on = None
+        global CURRENT
+        CURRENT = self
 
     # -------------------------------------------------------------- obligations
     def add(self, ob: Ob):
@@ -297,6 +324,10 @@ class Check:
 
     def violation(self, obligation, replay_payload, found_input: bool):
         name = "viol_" + "".join(c if c.isalnum() else "_" for c in obligation)[:120]
+        used = self.__dict__.setdefault("_replay_names", {})
+        used[name] = used.get(name, 0) + 1
+        if used[name] > 1:          # several violations of one obligation (distinct inputs): one replay file each
+            name = f"{name}__{used[name]}"
         payload = dict(replay_payload)
         payload["obligation"] = obligation
         p = self.write_replay(name, payload)
@@ -365,10 +396,13 @@ class Check:
             self.errors.append(f"vacuity: canary/cover {ob.id} is {ob.result} (expected sat)")
         if not [ob for ob in self.obs if ob.expect == "unsat"] and level == "proof":
             self.errors.append("no obligations generated")
-        if ledger is not None and not update:
+        if ledger is not None and not update and self.aborted_on is None:
             for k, want in ledger["clauses"].items():
                 if k not in st:
                     self.errors.append(f"ledger clause not generated (function not analysed at all): {k}")
+        if self.aborted_on is not None:
+            self.notes.append(f"run cut short: {self.aborted_on} is not defined in the current source; obligations of "
+                              "functions analysed after it were not generated")
         if update:
             self.write_ledger()
         n_ob = len([o for o in self.obs if o.expect == "unsat"])
